@@ -449,7 +449,10 @@ func altsOf(f field, full bool) []string {
 			out = append(out, "kinds")
 		}
 		return out
-	case fNodeSlice, fNodeMap:
+	case fNodeSlice:
+		// "emptied": length 0 with spare capacity (a list whose last element was removed): still a mutable part
+		return []string{"nil", "empty", "one", "two", "emptied"}
+	case fNodeMap:
 		return []string{"nil", "empty", "one", "two"}
 	case fLeafCont:
 		if f.typ == kindsType {
@@ -535,6 +538,11 @@ func applyAlt(structVal reflect.Value, f field, alt string, depth int) {
 	case fNodeSlice:
 		n := map[string]int{"empty": 0, "one": 1, "two": 2, "nilelem": 1, "onethennil": 2}[alt]
 		if alt == "nil" {
+			return
+		}
+		if alt == "emptied" {
+			one := reflect.Append(reflect.MakeSlice(t, 0, 2), elemFor(t.Elem(), depth, "gone"))
+			v.Set(one.Slice(0, 0))
 			return
 		}
 		s := reflect.MakeSlice(t, 0, n)
